@@ -135,6 +135,9 @@ func (e *Engine) propertyRoots(id string) []*ssa.Function {
 		for _, p := range ps {
 			if p == id && !c.Trusted {
 				if f := e.allFuncs[name]; f != nil && !seen[f] {
+					if strings.Contains(f.Name(), "_slow_") && !e.thorough {
+						continue // heavy lemma: thorough tier only
+					}
 					seen[f] = true
 					out = append(out, f)
 				}
